@@ -71,6 +71,62 @@ PROP_GROUPS = {
 }
 
 
+PB_SKIP = {'_pb_dpm_hyp2f0': 'calls the commented-out kernel _dpm_hyp2f0 (raises AttributeError)',
+           '_pb_hyp2f0': 'nthderiv.hyp2f0 removed (forward raises)', '_pb_hyp0f1': 'nthderiv.hyp0f1 removed (forward raises)'}
+
+
+def analyse_pullbacks(ctx):
+    """E2 over the pullback kernels: the adjoint recurrences are Taylor arithmetic too (the adjoint coefficient of
+    weight e accumulates only products of total weight e)"""
+    if 'E2pb' in ctx.cache:
+        return ctx.cache['E2pb']
+    m = ctx.model
+    ci = m.cls('RawAlgorithmsMixIn')
+    out = {}
+    for n, fi in sorted(ci.methods.items()):
+        if not (n.startswith('_pb_') or n.endswith('_pullback')) or n in PB_SKIP:
+            continue
+        out[n] = ('pullback', KernelAnalysis(fi, model=m).run())
+    ctx.cache['E2pb'] = out
+    return out
+
+
+def rule_pb_grade(prop):
+    obs = ('O3', 'O4', 'CTRL', 'RESHAPE') if prop == 'C03' else ('O1', 'O2', 'C12.D', 'CTRL')
+
+    def rule(ctx):
+        r = RuleResult('%s.pb-grade' % prop,
+                       'pullback kernels are Taylor arithmetic as well: every store into an adjoint coefficient is homogeneous in the grading, '
+                       'series are combined with series-level kernels (not coefficient-wise), and control flow does not depend on higher-order '
+                       'coefficients' if prop == 'C03' else
+                       'reverse sweep: every coefficient index in the pullback kernels stays in range, reads are causal and independent of the '
+                       'truncation degree')
+        res = analyse_pullbacks(ctx)
+        for name, (grp, ka) in sorted(res.items()):
+            fi = ka.fi
+            for i in [x for x in ka.issues if x.ob in obs]:
+                r.bad(Finding('%s.pb.%s' % (prop, i.ob), fi.fq, norm(i.node)[:160] if isinstance(i.node, ast.AST) else str(i.node),
+                              '[%s] %s: %s' % (i.ob, fi.qualname, i.msg), fi.file, getattr(i.node, 'lineno', fi.lineno)))
+            for node, why in ka.unknown:
+                if 'O3' not in obs and ('inhomogeneous' in why or 'weights' in why):
+                    continue
+                r.unknown(fi.site(node), why)
+            r.instances += ka.discharged
+            r.holding += ka.discharged
+            if ka.obligations:
+                r.nontrivial.add(fi.fq)
+            for s_ in ka.samples[:1]:
+                if len(r.samples) < 5:
+                    r.samples.append(s_)
+        for k, why in PB_SKIP.items():
+            r.note('not analysed: %s - %s' % (k, why))
+        r.stats = {'pullback_kernels': len(res)}
+        r.floor = 150
+        return r
+    rule.__name__ = 'rule_pb_grade_' + prop
+    return rule
+
+
 def analyse_all(ctx):
     if 'E2' in ctx.cache:
         return ctx.cache['E2']
